@@ -27,6 +27,17 @@ def grid(tier):
                     out.append({'mode': 'client', 'class': 'deadline', 'transport': 'h2', 'shim': {'cap': 65536, 'rq': 65536, 'wq': 65536, 'pend': 0},
                                 'shape': 'unary', 'server': server, 'client': client, 'req': {'meta': [], 'msgs': [[1]]},
                                 'script': {'init_meta': [], 'msgs': [[2]], 'end': {'ok': True}, 'fail_before': False, 'no_compress': False, 'latency_ms': L}})
+    # a peer that never answers and knows nothing about grpc-timeout: only the client's own timer (armed from the caller's
+    # timeout and / or Endpoint::timeout) can end the call; latency is "infinite" (the contract's L is set beyond every timeout)
+    for tc, te in ((1000, None), (None, 2000), (1000, 2000), (3000, 2000)):
+        client = {'send': '', 'accept': [], 'max_dec': -1, 'max_enc': -1}
+        if tc is not None:
+            client['timeout_ms'] = tc
+        if te is not None:
+            client['endpoint_timeout_ms'] = te
+        out.append({'mode': 'client', 'class': 'deadline_blackhole_peer', 'transport': 'h2', 'shim': {'cap': 65536, 'rq': 65536, 'wq': 65536, 'pend': 0},
+                    'shape': 'unary', 'server': {'send': [], 'accept': [], 'max_dec': -1, 'max_enc': -1, 'blackhole': True}, 'client': client, 'req': {'meta': [], 'msgs': [[1]]},
+                    'script': {'init_meta': [], 'msgs': [[2]], 'end': {'ok': True}, 'fail_before': False, 'no_compress': False, 'latency_ms': 100000}})
     # zero timeouts (a boundary of the grid): with a handler that needs time the call is cut off at once
     for tc, tsrv, te in ((0, None, None), (None, 0, None), (None, None, 0), (0, 1000, None), (2000, 0, None)):
         for L in (500, 1500):
